@@ -6,6 +6,7 @@ From Coq Require Import List NArith String Ascii Bool Lia Arith.
 From V Require Import Base.Strings Base.Result Model.Registry Model.Settings Model.Subst
   Model.TypePath Model.Derives Model.Generate Model.Emit Model.Equal Model.WellFormed
   Proofs.GenProofs Proofs.ResolveTotal.
+From V Require Import Proofs.SynKey.
 Import ListNotations.
 Open Scope string_scope. Open Scope list_scope.
 
@@ -66,9 +67,7 @@ Proof.
 Qed.
 
 Lemma syn_key_ok p : p <> [] -> forallb ident_okb p = true -> syn_type_path_key p = Ok (path_key p).
-Proof.
-  intros Hp H. destruct p as [|a p']; [congruence|]. unfold syn_type_path_key. rewrite H. reflexivity.
-Qed.
+Proof. exact (syn_key_wf p). Qed.
 
 Lemma In_resolve (r : registry) i t : In (i, t) r -> exists id, resolve r id = Some t.
 Proof.
